@@ -5,6 +5,7 @@ package main
 import (
 	"encoding/json"
 	"fmt"
+	"math"
 	"math/rand"
 	"net"
 	"strings"
@@ -156,11 +157,13 @@ type ipVec struct {
 }
 
 type ipSetup struct {
-	rtc   [3]clientip.RightmostTrustedCount
-	rnp   [2]clientip.RightmostNonPrivate
-	rtr   [3]clientip.RightmostTrustedRange
-	lnp   [2][3]clientip.LeftmostNonPrivate
-	chain clientip.Chain
+	rtcHuge [2]clientip.RightmostTrustedCount // counts in the upper half of the uint range
+	lnpAll  [2]clientip.LeftmostNonPrivate    // limit math.MaxUint: no limit
+	rtc     [3]clientip.RightmostTrustedCount
+	rnp     [2]clientip.RightmostNonPrivate
+	rtr     [3]clientip.RightmostTrustedRange
+	lnp     [2][3]clientip.LeftmostNonPrivate
+	chain   clientip.Chain
 }
 
 func mustRes[T any](v T, err error) T {
@@ -172,6 +175,24 @@ func mustRes[T any](v T, err error) T {
 
 func newIPSetup(key clientip.HeaderKey) *ipSetup {
 	s := &ipSetup{}
+	// resolvers built with every selection of the built-in range families, in every order, and thrown away: building one
+	// resolver never changes what another one (built before or after, with other options) trusts
+	trust := []func(bool) clientip.TrustedRangeOption{clientip.TrustLoopback, clientip.TrustLinkLocal, clientip.TrustPrivateNet}
+	excl := []func(bool) clientip.BlacklistRangeOption{clientip.ExcludeLoopback, clientip.ExcludeLinkLocal, clientip.ExcludePrivateNet}
+	for _, order := range [][]int{{0}, {1}, {2}, {0, 1}, {1, 0}, {0, 2}, {2, 0}, {1, 2}, {2, 1}, {0, 1, 2}, {2, 1, 0}, {1, 2, 0}, {1, 0, 2}} {
+		var to []clientip.TrustedRangeOption
+		var eo []clientip.BlacklistRangeOption
+		for _, i := range order {
+			to = append(to, trust[i](true))
+			eo = append(eo, excl[i](true))
+		}
+		mustRes(clientip.NewRightmostNonPrivate(key, to...))
+		mustRes(clientip.NewLeftmostNonPrivate(key, 2, eo...))
+	}
+	s.rtcHuge[0] = mustRes(clientip.NewRightmostTrustedCount(key, math.MaxUint))
+	s.rtcHuge[1] = mustRes(clientip.NewRightmostTrustedCount(key, math.MaxInt+2))
+	s.lnpAll[0] = mustRes(clientip.NewLeftmostNonPrivate(key, math.MaxUint))
+	s.lnpAll[1] = mustRes(clientip.NewLeftmostNonPrivate(key, math.MaxUint, clientip.ExcludePrivateNet(true)))
 	for n := 1; n <= 3; n++ {
 		s.rtc[n-1] = mustRes(clientip.NewRightmostTrustedCount(key, uint(n)))
 	}
@@ -277,6 +298,14 @@ func replayIPVec(r *Run, v ipVec, rng *rand.Rand, setups map[string]*ipSetup, ev
 			check(fmt.Sprintf("leftmost-non-private(%d,private-net only)", lim), s.lnp[1][lim-1], v.Lnp[1][lim-1])
 		}
 		check("chain(rtr custom, rtc 3, lnp 2)", s.chain, v.Chain)
+		// the ends of the parameter range: a count no header can reach is an error (never a panic), no limit is any limit
+		// that is not reached
+		check("rightmost-trusted-count(MaxUint)", s.rtcHuge[0], 0)
+		check("rightmost-trusted-count(MaxInt+2)", s.rtcHuge[1], 0)
+		if len(flat) <= 3 {
+			check("leftmost-non-private(MaxUint,default)", s.lnpAll[0], v.Lnp[0][2])
+			check("leftmost-non-private(MaxUint,private-net only)", s.lnpAll[1], v.Lnp[1][2])
+		}
 	}
 	// single-IP header: one entry per header instance
 	single := mustRes(clientip.NewSingleIPHeader("X-Real-IP"))
